@@ -30,7 +30,7 @@ pub fn run_one(b: u64, kind: &str, labels: &[String], seed: u64) -> Value {
     let other = crypto::keypair(2);
     let pk = victim.verifying_key().to_bytes();
     let opk = other.verifying_key().to_bytes();
-    let salt: Option<Vec<u8>> = if kind == "mutable_salt" { Some(b"the salt".to_vec()) } else { None };
+    let salt: Option<Vec<u8>> = if kind == "mutable_salt" { Some(b"the salt".to_vec()) } else if kind == "mutable_empty_salt" { Some(vec![]) } else { None };
     let imm_value = |i: usize| format!("immutable value #{i}").into_bytes();
     let target: [u8; 20] = match kind {
         "immutable" => crypto::immutable_target(b"the wanted immutable value"),
@@ -108,6 +108,8 @@ pub fn run_one(b: u64, kind: &str, labels: &[String], seed: u64) -> Value {
                 }
                 let (k, v, sq, sig): (Vec<u8>, Vec<u8>, i64, Vec<u8>) = match lb {
                     "authentic" => (pk.to_vec(), mval.clone(), seq, good),
+                    // the key's own, perfectly valid, item published WITHOUT a salt
+                    "unsalted" => (pk.to_vec(), mval.clone(), seq, crypto::sign_mutable(&victim, seq, &mval, None).to_vec()),
                     // a perfectly valid item of ANOTHER key
                     "wrong_key" => (opk.to_vec(), mval.clone(), seq, crypto::sign_mutable(&other, seq, &mval, s).to_vec()),
                     // the victim's own item, signed for another salt
